@@ -296,8 +296,31 @@ class CFG:
         pd = self.postdominators()
         return b in pd and a in pd[b]
 
-    def control_deps(self, n):
-        """Set of (branch node, edge label) the node n is control dependent on (transitively closed)."""
+    def _normal_pdom(self):
+        """Post-dominators on the sub-graph of nodes that can reach the normal exit (raising branches pruned)."""
+        if getattr(self, "_npdom", None) is None:
+            live = self.live_nodes()
+            can = set()
+            work = [self.exit] if self.exit in live else []
+            while work:
+                m = work.pop()
+                if m in can:
+                    continue
+                can.add(m)
+                for p, _ in m.pred:
+                    if p in live:
+                        work.append(p)
+            nodes = list(can)
+
+            def rsucc(m):
+                return [p for p, _ in m.pred if p in can]
+            self._npdom = (self._dominators(self.exit, rsucc, nodes) if nodes else {}, can)
+        return self._npdom
+
+    def control_deps(self, n, normal_only=False):
+        """Set of (branch node, edge label) the node n is control dependent on (transitively closed).
+
+        normal_only: branches that only lead to a raise are not guards (early-exit checks are ignored)."""
         out = set()
         work = [n]
         seen = set()
@@ -306,15 +329,27 @@ class CFG:
             if m in seen:
                 continue
             seen.add(m)
-            for (b, lab) in self.direct_control_deps(m):
+            for (b, lab) in self.direct_control_deps(m, normal_only):
                 if (b, lab) not in out:
                     out.add((b, lab))
                     work.append(b)
         return out
 
-    def direct_control_deps(self, n):
-        pd = self.postdominators()
+    def direct_control_deps(self, n, normal_only=False):
         out = set()
+        if normal_only:
+            pd, can = self._normal_pdom()
+            if n not in can:
+                return self.direct_control_deps(n, False)
+            for b in can:
+                succ = [(s, lab) for s, lab in b.succ if s in can]
+                if len(succ) < 2:
+                    continue
+                for s, lab in succ:
+                    if (n is s or n in pd.get(s, ())) and not (n in pd[b] and n is not b):
+                        out.add((b, lab))
+            return out
+        pd = self.postdominators()
         for b in self.live_nodes():
             if len(b.succ) < 2:
                 continue
